@@ -183,6 +183,22 @@ func (ms msgServer) CreateValidator(ctx context.Context, msg *poa.MsgCreateValid
 		return nil, stakingtypes.ErrValidatorPubKeyExists
 	}
 
+	// neither may be waiting in the pending list already
+	pending, err := ms.k.GetPendingValidators(ctx)
+	if err != nil {
+		return nil, err
+	}
+
+	for _, p := range pending.Validators {
+		if p.OperatorAddress == msg.ValidatorAddress {
+			return nil, stakingtypes.ErrValidatorOwnerExists
+		}
+
+		if p.ConsensusPubkey != nil && p.ConsensusPubkey.Equal(msg.Pubkey) {
+			return nil, stakingtypes.ErrValidatorPubKeyExists
+		}
+	}
+
 	if _, err := msg.Description.EnsureLength(); err != nil {
 		return nil, err
 	}
